@@ -53,6 +53,16 @@ Proof.
     apply negb_false_iff in H.
     dm; cbn [fst]; sp; try reflexivity.
     all: congruence.
+  - unfold step. destruct (sess_ctx st s) as [[sfab p]|] eqn:Es; cbn [fst]; auto.
+    destruct (s_fs st) as [|f fl] eqn:Ef; [discriminate|].
+    apply negb_false_iff in H.
+    dm; cbn [fst]; sp; try reflexivity.
+    all: congruence.
+  - unfold step. destruct (sess_ctx st s) as [[sfab p]|] eqn:Es; cbn [fst]; auto.
+    destruct (s_fs st) as [|f fl] eqn:Ef; [discriminate|].
+    apply negb_false_iff in H.
+    dm; cbn [fst]; sp; try reflexivity.
+    all: congruence.
   - frz.
   - frz.
   - frz.
@@ -113,6 +123,43 @@ Lemma never_may_store_nothing_stored : forall ops st,
 Proof.
   induction ops as [|o r IH]; intros st H; cbn [nothing_stored]; auto.
   destruct H as [H1 H2]. split; [apply store_frozen; exact H1|apply IH; exact H2].
+Qed.
+
+(** ** The ways to reach the store, by name; rollback exactness with the classes spelled out *)
+Lemma may_store_split : forall st o,
+  may_store st o = is_complete o || outside_write st o || vid_leak st o.
+Proof.
+  intros st o. destruct o; cbn [may_store is_complete outside_write vid_leak orb]; try reflexivity.
+  - destruct (sess_ctx st s) as [[g p]|]; [|reflexivity]. destruct (s_fs st); [reflexivity|].
+    rewrite orb_false_r. reflexivity.
+  - destruct (sess_ctx st s) as [[g p]|]; [|reflexivity]. destruct (s_fs st); [reflexivity|].
+    rewrite orb_false_r. reflexivity.
+  - destruct (sess_ctx st s) as [[g p]|]; [|reflexivity]. destruct (s_fs st) as [|f fl]; [reflexivity|].
+    destruct (f =? g), (fl_add_noc fl || fl_upd_noc fl); reflexivity.
+Qed.
+
+Lemma in_scope_safe : forall ops st, in_scope st ops -> safe_run st ops /\ never_may_store st ops.
+Proof.
+  induction ops as [|o r IH]; intros st H; cbn [safe_run never_may_store]; auto.
+  destruct H as (Hg & Ho & Hv & Hc & Hw & Hr). destruct (IH _ Hr) as [H1 H2].
+  repeat split; auto. rewrite may_store_split, Hc, Hw, Hv. reflexivity.
+Qed.
+
+Theorem rollback_exact_outside_classes : forall st0 s t bc ops r,
+  Inv st0 -> s_fs st0 = Idle -> t <> 0 ->
+  snd (step st0 (OArm s t bc)) = StOk ->
+  let st1 := fst (step st0 (OArm s t bc)) in
+  in_scope st1 ops ->
+  let st := exec st1 ops in
+  rollback_op r -> snd (step st r) = StOk ->
+  let st' := fst (step st r) in
+  cfg_eq (s_fabs st') (s_fabs st0) /\ s_nets st' = s_nets st0 /\ s_bc st' = s_bc st0 /\
+  s_kv st' = s_kv st0 /\ s_fs st' = Idle.
+Proof.
+  intros st0 s t bc ops r HI Hi Ht Hok st1 Hs st Hr Hrok st'.
+  destruct (in_scope_safe _ _ Hs) as [H1 H2].
+  apply (rollback_exact st0 s t bc ops r); auto.
+  apply never_may_store_nothing_stored. exact H2.
 Qed.
 
 (** ** D. Commit is atomic (outside the known class: the second store fails / power is lost
